@@ -119,16 +119,28 @@ theorem measFromProto_empty (cfg : Cfg) : measFromProto cfg emptyPMeas = emptyMe
   cases a <;> simp only [measFromProto, emptyPMeas, emptyMeas, List.foldl_nil, Meas.mk.injEq, true_and, and_true,
     Bool.false_eq_true, if_false, if_true, Option.getD_none] <;> decide +kernel
 
-theorem earlyStopDecision_roundtrip (cfg : Cfg) (d : EarlyStopDecision)
+theorem earlyStopDecision_roundtrip (o : Bool) (cfg : Cfg) (d : EarlyStopDecision)
     (hp : d.predicted.isSome = true) (h : ∀ m, d.predicted = some m → MeasOk cfg m) :
-    earlyStopDecisionFromProto cfg (earlyStopDecisionToProto d) = earlyStopDecisionNorm d := by
+    earlyStopDecisionFromProto o cfg (earlyStopDecisionToProto o d) = earlyStopDecisionNorm d := by
   obtain ⟨id, reason, stop, pred⟩ := d
   cases pred with
   | none => simp at hp
-  | some m => simp [earlyStopDecisionFromProto, earlyStopDecisionToProto, earlyStopDecisionNorm, meas_roundtrip cfg m (h m rfl)]
+  | some m =>
+    cases o <;>
+      simp [earlyStopDecisionFromProto, earlyStopDecisionToProto, earlyStopDecisionNorm, meas_roundtrip cfg m (h m rfl)]
 
-theorem earlyStopDecisionToProto_norm (d : EarlyStopDecision) :
-    earlyStopDecisionToProto (earlyStopDecisionNorm d) = earlyStopDecisionToProto d := by
+/-- the repaired converter: no hypothesis about the prediction -/
+theorem earlyStopDecision_roundtrip_opt (cfg : Cfg) (d : EarlyStopDecision)
+    (h : ∀ m, d.predicted = some m → MeasOk cfg m) :
+    earlyStopDecisionFromProto true cfg (earlyStopDecisionToProto true d) = earlyStopDecisionNorm d := by
+  obtain ⟨id, reason, stop, pred⟩ := d
+  cases pred with
+  | none => simp [earlyStopDecisionFromProto, earlyStopDecisionToProto, earlyStopDecisionNorm]
+  | some m =>
+    simp [earlyStopDecisionFromProto, earlyStopDecisionToProto, earlyStopDecisionNorm, meas_roundtrip cfg m (h m rfl)]
+
+theorem earlyStopDecisionToProto_norm (o : Bool) (d : EarlyStopDecision) :
+    earlyStopDecisionToProto o (earlyStopDecisionNorm d) = earlyStopDecisionToProto o d := by
   obtain ⟨id, reason, stop, pred⟩ := d
   cases pred with
   | none => rfl
@@ -136,23 +148,34 @@ theorem earlyStopDecisionToProto_norm (d : EarlyStopDecision) :
 
 structure EarlyStopDecisionsOk (cfg : Cfg) (d : EarlyStopDecisions) : Prop where
   decisions : ∀ e ∈ d.decisions, ∀ m, e.predicted = some m → MeasOk cfg m
-  /-- every decision carries a prediction (without one, `to_decisions_proto` sends an empty
+  /-- every decision carries a prediction (without one, the pinned `to_decisions_proto` sends an empty
   `Measurement()` that `from_decisions_proto` turns into a prediction) -/
   predicted : ∀ e ∈ d.decisions, e.predicted.isSome = true
   metadata : DeltaWF d.metadata
 
-theorem earlyStopDecisions_roundtrip (cfg : Cfg) (d : EarlyStopDecisions) (h : EarlyStopDecisionsOk cfg d) :
-    earlyStopDecisionsFromProto cfg (earlyStopDecisionsToProto d) = earlyStopDecisionsNorm d := by
+theorem earlyStopDecisions_roundtrip (o : Bool) (cfg : Cfg) (d : EarlyStopDecisions) (h : EarlyStopDecisionsOk cfg d) :
+    earlyStopDecisionsFromProto o cfg (earlyStopDecisionsToProto o d) = earlyStopDecisionsNorm d := by
   obtain ⟨ds, md⟩ := d
   simp only [earlyStopDecisionsFromProto, earlyStopDecisionsToProto, earlyStopDecisionsNorm,
     EarlyStopDecisions.mk.injEq, deltaFromProto_deltaToProto md h.metadata, and_true]
   rw [List.map_map]
   apply List.map_congr_left
   intro e he
-  exact earlyStopDecision_roundtrip cfg e (h.predicted e he) (h.decisions e he)
+  exact earlyStopDecision_roundtrip o cfg e (h.predicted e he) (h.decisions e he)
 
-theorem earlyStopDecisionsToProto_norm (d : EarlyStopDecisions) :
-    earlyStopDecisionsToProto (earlyStopDecisionsNorm d) = earlyStopDecisionsToProto d := by
+theorem earlyStopDecisions_roundtrip_opt (cfg : Cfg) (d : EarlyStopDecisions) (hw : DeltaWF d.metadata)
+    (hm : ∀ e ∈ d.decisions, ∀ m, e.predicted = some m → MeasOk cfg m) :
+    earlyStopDecisionsFromProto true cfg (earlyStopDecisionsToProto true d) = earlyStopDecisionsNorm d := by
+  obtain ⟨ds, md⟩ := d
+  simp only [earlyStopDecisionsFromProto, earlyStopDecisionsToProto, earlyStopDecisionsNorm,
+    EarlyStopDecisions.mk.injEq, deltaFromProto_deltaToProto md hw, and_true]
+  rw [List.map_map]
+  apply List.map_congr_left
+  intro e he
+  exact earlyStopDecision_roundtrip_opt cfg e (hm e he)
+
+theorem earlyStopDecisionsToProto_norm (o : Bool) (d : EarlyStopDecisions) :
+    earlyStopDecisionsToProto o (earlyStopDecisionsNorm d) = earlyStopDecisionsToProto o d := by
   simp [earlyStopDecisionsToProto, earlyStopDecisionsNorm, deltaToProto_deltaNorm, List.map_map,
     Function.comp_def, earlyStopDecisionToProto_norm]
 
